@@ -244,7 +244,15 @@ func vProg_calls(env *Zlisp) []Sexp {
 	tr := func(x Sexp) Sexp { return vL(s("t"), x) }
 	p, q, r := vSmallInt("p"), vSmallInt("q"), vSmallInt("r")
 	var f Sexp
-	switch vChoice("shape", 15) {
+	switch vChoice("shape", 19) {
+	case 15: // the head is bound to a number: an error, and the arguments are never evaluated
+		f = vL(s("begin"), vL(s("def"), s("x"), p), vL(s("x"), tr(q), tr(r)))
+	case 16: // the head is bound to a string
+		f = vL(s("begin"), vL(s("def"), s("x"), &SexpStr{S: "str"}), vL(s("x"), tr(q)))
+	case 17: // the head is computed (with an effect) and is not callable
+		f = vL(vL(s("begin"), tr(vI(7)), p), tr(q), tr(r))
+	case 18: // a parameter that holds a number is called
+		f = vL(s("begin"), vL(s("defn"), s("f"), vA(e, s("h"), s("u")), vL(s("h"), tr(s("u")))), vL(s("f"), p, q))
 	case 10: // map over a list: the function is called on the elements first to last
 		f = vL(s("begin"), vL(s("defn"), s("f"), vA(e, s("u")), tr(vL(s("*"), s("u"), vI(2)))),
 			vL(s("map"), s("f"), vL(s("list"), p, q, r)))
